@@ -330,13 +330,20 @@ def lossy_case(rng):
     derivs = gen_derivs(rng, cls, shape, numer, mask, nder, finite=True)
     ref = rng.choice(REFS)
     dig = rng.choice(DIGITS + (NUM_DIGITS_EXTRA if isinstance(ref, float) else []))
+    digits_first = False
     if rng.random() < 0.25:
         ref2 = rng.choice(REFS)
         dig2 = rng.choice(DIGITS)
         digits = [[dig, dig2], [ref, ref2]]
     else:
         digits = [dig, ref]
-    return {'mode': 'lossy', 'cls': cls, 'shape': list(shape), 'numer': list(numer), 'denom': [],
+    if rng.random() < 0.12:
+        # object less precise than its derivatives, which are attached after set_pickle_digits
+        nder = 1
+        derivs = gen_derivs(rng, cls, shape, numer, mask, nder, finite=True)
+        digits = [[rng.choice([6, 8, 'single']), 'double'], ['fpzip', 'fpzip']]
+        digits_first = True
+    return {'digits_first': digits_first, 'mode': 'lossy', 'cls': cls, 'shape': list(shape), 'numer': list(numer), 'denom': [],
             'dtype': 'float64', 'vals': vals, 'mask': mask, 'units': None,
             'readonly': rng.random() < 0.2, 'derivs': derivs, 'digits': digits}
 
@@ -445,6 +452,12 @@ def build(c, Pm):
     if c['units']:
         kw['units'] = get_units(Pm, c['units'])
     q = cls(arr, mask, **kw)
+    if c['digits'] is not None and c.get('digits_first'):
+        # the derivatives are attached AFTER set_pickle_digits: they carry no digits of their own and
+        # must be pickled with the second entries of the parent's pairs
+        dg, rf = c['digits']
+        q.set_pickle_digits(tuple(dg) if isinstance(dg, list) else dg,
+                            tuple(rf) if isinstance(rf, list) else rf)
     for d in c['derivs']:
         dden = tuple(d['denom'])
         darr = np_values(d['vals'], 'float64', shape + numer + dden)
@@ -453,7 +466,7 @@ def build(c, Pm):
         dmask = q._mask_ if d['mask'] == 'same' else False
         dq = cls(darr, dmask, drank=len(dden)) if dden else cls(darr, dmask)
         q.insert_deriv(d['key'], dq)
-    if c['digits'] is not None:
+    if c['digits'] is not None and not c.get('digits_first'):
         dg, rf = c['digits']
         q.set_pickle_digits(tuple(dg) if isinstance(dg, list) else dg,
                             tuple(rf) if isinstance(rf, list) else rf)
